@@ -10,12 +10,12 @@ TIERS = {'quick': 6000, 'thorough': 400000}
 RULE = ('one connected device, 2-3 concurrent actors (baton-scheduled real threads for AdbDevice with lock/IO yield points and line-level pre-emption in '
         'adb_device.py/hidden_helpers.py under coarse-random, PCT d<=3 and dense policies; asyncio tasks on a virtual-time loop for AdbDeviceAsync), each '
         'running 1-2 ops from {shell, exec_out, streaming_shell, stat, list, pull->BytesIO, push<-BytesIO}, plus the single-thread variant "partially consumed '
-        'streaming_shell + another op"; the device adversary picks which ready stream\'s packet goes on the wire next; in a quarter of the runs the transport writes short (positive per-call capacity); timeouts >= 30 virtual s and latencies '
+        'streaming_shell + another op"; the device adversary picks which ready stream\'s packet goes on the wire next; in a quarter of the runs the transport writes short (positive per-call capacity); a third of the task runs go through the real TcpTransportAsync on the simulated asyncio transport (small kernel buffer, unsent data queued by reference as asyncio does); timeouts >= 30 virtual s and latencies '
         '<< timeouts so a timeout can only come from loss or deadlock. non-trivial = >= 1 context switch inside an operation and >= 1 packet read by a '
         'non-owner (parked in the store); distinct = event-log digests')
 ASSUMPTIONS = ['pre-emption is at line granularity inside adb_shell files only; asyncio interleavings are those FIFO scheduling allows',
                'K1 (known finding) is classified by its exact signature; any other deviation in the same run is a violation']
-EXPECT_PROBES = {'all': ['short_writes', 'foreign_packet_parked', 'store_delivered', 'store_clse_parked', 'clse_dropped_for_live_stream', 'lock_contended', 'adversary_choice', 'preempt_line']}
+EXPECT_PROBES = {'all': ['c06_tcp_async', 'short_writes', 'foreign_packet_parked', 'store_delivered', 'store_clse_parked', 'clse_dropped_for_live_stream', 'lock_contended', 'adversary_choice', 'preempt_line']}
 KINDS = ['shell', 'shell', 'exec_out', 'streaming_shell', 'stat', 'list', 'pull', 'push']
 OWN = ('lost-clse', 'wrong-result', 'unexpected-exception', 'timeout-instead-of-result', 'missing-exception', 'wrong-exception', 'hang', 'no-termination', 'deadlock',
        'wire-format', 'protocol', 'store-model', 'push-content', 'push-missing', 'push-incomplete', 'push-duplicate', 'push-extra', 'lock-held')
@@ -77,6 +77,17 @@ def generate(seed, tier):
         cfg['ayield'] = g.pick([0.0, 0.2, 0.6])
         cfg['task_order'] = g.pick([[0, 1, 2], [1, 0, 2], [2, 1, 0], [1, 2, 0]])
     scn = {'api': api, 'transport': 'mem', 'device': d, 'config': cfg, 'pre': [{'op': 'connect', 'rt': 30.0}], 'actors': actors, 'object': {'banner': 'simhost'}}
+    if api == 'async' and not single and g.chance(0.3):
+        # the tasks share a real TcpTransportAsync on a simulated asyncio transport: small kernel buffer, unsent data queued by reference
+        scn['transport'] = 'tcp'
+        scn['tcp'] = {'sndbuf': g.pick([256, 512, 4096]), 'drain': g.pick([64, 1000]), 'drain_every': g.pick([1e-4, 1e-3]), 'high_water': 65536}      # a slow reader: 64 KB/s .. 10 MB/s
+        cfg.pop('short', None)
+        if g.chance(0.6):
+            # every task is in the middle of a multi-WRITE push at the same time
+            d['maxdata'] = g.pick([4096, 8192])
+            for a, ops in enumerate(actors):
+                ops.insert(g.int(0, len(ops)), {'op': 'push', 'src': 'bytesio', 'content': {'seed': g.int(0, 1 << 30), 'size': g.int(9000, 20000), 'alpha': 'bin'},
+                                                'path': '/data/local/tmp/t%d_%d' % (a, g.int(0, 999)), 'mtime': 6, 'rt': 30.0, 'tt': 30.0})
     return {'seed': seed, 'scn': scn}
 
 
@@ -185,6 +196,8 @@ def evaluate(case, tapes=None):
         seq = [(c[1], c[2]) for c in run.link.calls]
         sw = sum(1 for i in range(1, len(seq)) if seq[i][0] != seq[i - 1][0])
         out['inter'].append(h64(seq))
+    if scn.get('transport') == 'tcp':
+        out['probes']['c06_tcp_async'] = 1
     out['nontrivial'] = sw >= 1 and parked >= 1
     if run.sched is not None:
         out['states'] = list(run.sched.states)
